@@ -530,7 +530,9 @@ SamplePoints(r) ==
         IN  axis \cup pyth
 
 \* every sampled point of the old region is a point of the new one
-Covers(new, old, q) == \A p \in SamplePoints(old) : InRegion(new, p[1], p[2], q)
+\* (a disc of negative radius is empty: its "border" samples are not points of it)
+Covers(new, old, q) ==
+    \A p \in SamplePoints(old) : InRegion(old, p[1], p[2], q) => InRegion(new, p[1], p[2], q)
 
 MkRegion(ev, id) ==
     IF ev.typ = "rect" THEN MkRect(id, ev.a, ev.b, ev.c, ev.d) ELSE MkCirc(id, ev.a, ev.b, ev.c)
@@ -579,7 +581,8 @@ ApiStep(cs, ev, q) ==
           <<"C12", "C12.monotone",
              locked =>
                \A i \in 1..Len(before) :
-                 \A p \in SamplePoints(before[i]) : InAny(ev.rl, p[1], p[2], q)>>
+                 \A p \in SamplePoints(before[i]) :
+                    InRegion(before[i], p[1], p[2], q) => InAny(ev.rl, p[1], p[2], q)>>
         >>
     IN  [cs EXCEPT !.n = n, !.regs = ev.rl, !.v = Judge(cs.v, checks, 1, n, "")]
 
